@@ -84,7 +84,7 @@ func (e *C02) Plan(tier string, seed uint64) int {
 	}
 	return 9000
 }
-func (e *C02) MinNontrivial(tier string) int { return 40 }
+func (e *C02) MinNontrivial(tier string) int                { return 40 }
 func (e *C02) CPUBudget(tier string, idx int) time.Duration { return 120 * time.Second }
 
 func (e *C02) Run(c *core.Ctx, idx int) {
